@@ -76,6 +76,7 @@ package xy
 // pair's end is finished: between two consecutive marks every point is within the threshold of their segment
 //@ func dpWorker
 //@   floats real
+//@   storelinks
 //@   lemmas mulCancel, mulCancel2, mulNonneg, mulMono
 //@   requires stride >= 2 && len(mask) >= 3 && len(ls) == mul(len(mask), stride) && threshold >= 0.0
 //@   requires mask[0] == 1 && mask[len(mask)-1] == 1 && forall i int :: 0 < i && i < len(mask)-1 ==> mask[i] == 0
